@@ -164,6 +164,12 @@ func sfBoolLit(b bool) sfLit {
 // listener/typer produce for this text: integers go through ParseInt and float64(int64).
 func sfFloatLit(v float64) sfLit {
 	text := strconv.FormatFloat(v, 'g', -1, 64)
+	// the grammar's exponent is an INT without leading zeros: 1e-07 is spelled 1e-7
+	for _, sign := range []string{"e+0", "e-0"} {
+		if i := strings.Index(text, sign); i >= 0 && i+3 < len(text) {
+			text = text[:i+2] + text[i+3:]
+		}
+	}
 	return sfFloatLitText(text)
 }
 
@@ -187,6 +193,12 @@ var sfNeedles = []string{"", "a", "b", "A", "ab", "0", "1", " ", "z", "B"}
 var sfFloatTexts = []string{"0", "-0", "1", "-2", "1.5", "-2.0", "42", "5e-324", "1e+308", "-1e-300", "1e308", "0.0", "9007199254740993", "-1", "2.5e0"}
 
 func sfLitFor(r *rng, typ byte) sfLit {
+	if c19xLiterals && r.chance(70) {
+		// a collection of extreme values (c19ext.go): literals at and next to those values
+		if l, ok := c19xLitFor(r, typ); ok {
+			return l
+		}
+	}
 	switch typ {
 	case 's':
 		if r.chance(70) {
@@ -577,30 +589,36 @@ func runC19(o *opts) error {
 		return c19Replay(qb, objs, rp, cases, impl)
 	}
 
-	stats := map[string]map[string]int{"rows": {}, "sort_keys": {}, "skip": {}, "limit": {}, "filter_root": {}, "filter_has": {}}
+	stats := map[string]map[string]int{"rows": {}, "sort_keys": {}, "skip": {}, "limit": {}, "filter_root": {}, "filter_has": {}, "collections": {}}
 	bump := func(group, key string) { stats[group][key]++ }
 	r := qRng(o.seed, 0xC19)
 	nData, nFilters := 5, 12
+	nExtreme, nExtremeFilters := 3, 8 // the fixed collection of extreme values + random ones (c19ext.go)
 	if o.thorough() {
 		nData, nFilters = 80, 14
+		nExtreme, nExtremeFilters = 25, 10
 	}
-	for di := 0; di < nData; di++ {
-		var n int
-		switch di {
-		case 0:
-			n = 8
-		case 1:
-			n = 0
-		case 2:
-			n = 1
-		default:
-			n = 2 + r.intn(11)
-		}
-		d := qGenDataset(r, n, false)
-		if di == 0 {
+	c19xSetTier(o.thorough())
+	rx := qRng(o.seed, 0xC19E) // its own stream: the ordinary collections do not depend on the extreme ones
+	for di := 0; di < nData+nExtreme; di++ {
+		extreme := di >= nData
+		var d *qDataset
+		switch {
+		case di == nData:
+			d = c19xFixedDataset()
+		case extreme:
+			d = c19xGenDataset(rx)
+		case di == 0:
+			qGenDataset(r, 8, false) // (keeps the random stream of the later collections as it was)
 			d = qProbeDataset()
-			n = len(d.rows)
+		case di == 1:
+			d = qGenDataset(r, 0, false)
+		case di == 2:
+			d = qGenDataset(r, 1, false)
+		default:
+			d = qGenDataset(r, 2+r.intn(11), false)
 		}
+		n := len(d.rows)
 		store, err := qb.load(d)
 		if err != nil {
 			return err
@@ -609,8 +627,15 @@ func runC19(o *opts) error {
 		impl.line("D")
 		bump("rows", strconv.Itoa(n))
 		grid := qPagingGrid(int64(n))
+		shuffle := r
+		if extreme {
+			shuffle = rx
+			bump("collections", "extreme-values")
+		} else {
+			bump("collections", "ordinary")
+		}
 		emit := func(f *sfNode, fs []qSortField, pg qPaging) {
-			cq := &c19Query{filter: f, q: qQuery{sort: fs, skip: pg.skip, limit: pg.limit, none: pg.none}, order: qShuffled(r, n)}
+			cq := &c19Query{filter: f, q: qQuery{sort: fs, skip: pg.skip, limit: pg.limit, none: pg.none}, order: qShuffled(shuffle, n)}
 			text := cq.text()
 			cases.line("%s", cq.caseLine())
 			impl.line("objectz=%s boltz=%s", objs.query(d, cq.order, text), c19Bolt(qb.db, store, text))
@@ -623,6 +648,10 @@ func runC19(o *opts) error {
 					bump("filter_has", k)
 				}
 			}
+		}
+		if extreme {
+			c19xEmit(rx, n, di == nData, nExtremeFilters, emit)
+			continue
 		}
 		// (1) the full paging grid: no filter / default order, and a null test under a sort
 		for _, pg := range grid {
